@@ -354,7 +354,7 @@ func TestC09(t *testing.T) {
 			r.Violation("corpus", c, "%s", v)
 		}
 	}
-	r.Rapid("doc", kit.Pick(3000, 200000), func(rt *rapid.T) {
+	r.Rapid("doc", kit.Pick(20000, 400000), func(rt *rapid.T) {
 		g, ok := genValidationCase(rt, 0)
 		if !ok {
 			rt.Skip("no case")
